@@ -14,14 +14,15 @@ THEOREMS = ["store_types_lawful", "union_view", "partial_union_view", "dataset_g
             "view_remove_all", "view_remove_all_count", "view_remove_matching", "view_remove_matching_count",
             "view_retain_matching", "view_insert_all", "view_insert_all_count", "as_dataset_mut_remove_all",
             "as_dataset_mut_remove_all_count", "as_dataset_mut_insert_all", "as_dataset_mut_insert_all_named",
-            "step_views", "run_views_coherent", "run_views_coherent_store_types", "vec_gspo_lawful_read"]
+            "step_views", "run_views_coherent", "run_views_coherent_store_types", "vec_gspo_lawful_read",
+            "view_query_store", "as_dataset_query_store", "step_views_ok", "run_views_ok", "run_views_coherent_set", "run_views_ok_necessary", "ref_forwarding_identity", "default_bulk_transcribed", "vec_types_lawful_bag", "view_mut_bag"]
 
 CONFIG = {
     "design_ref": "4.11",
     "technique": "Lean 4 proof: the adapters of api/src/{graph,dataset}/adapter.rs transcribed as forwarding to the methods of ANY wrapped dataset/graph implementation, and the default bulk methods of MutableGraph/MutableDataset (insert_all, remove_all, remove_matching, retain_matching) as loops over the VIEW's own methods; theorems for every lawful implementation, instantiated by C01's refinement for the indexed stores (every Good = reachable state) and directly for std sets/vectors; which underlying method each mutating adapter method calls is regenerated from the source (fail-closed shape check of every adapter body, incl. that no adapter overrides a bulk method); differential over interleaved direct/view histories on all 17 shipped mutable store types, through borrowed, mutably borrowed and owning views",
-    "level_text": "Proof (all states of every lawful store implementation, all graph names and matchers, unbounded histories): union_graph() shows exactly the image of the quads as a MULTISET (a triple in two graphs shows twice); partial_union_graph(m) and graph(g)/graph_mut(g) show exactly the triples of the quads whose graph name m matches / equals g (nothing for an absent name), also in triples(); pattern queries and contains through each view equal filtering / membership of the view; as_dataset() shows exactly the graph's triples in the default graph, answers pattern queries as filters, contains as membership (never for a named graph), has no graph names; insert/remove through graph_mut(g) have the state, result and flag of the dataset's insert/remove(s,p,o,g), leave every quad with another graph name and every other graph view untouched; the DEFAULT bulk methods called on graph_mut(g) (view_remove_all, view_remove_matching, view_retain_matching, view_insert_all, with counts for set stores) remove / keep / add exactly the quads of graph g they select and leave every other graph untouched (retain_matching through a view does NOT filter the whole store), on as_dataset_mut() (as_dataset_mut_remove_all, _insert_all, _insert_all_named) likewise with quads of named graphs ignored resp. refused; insert through as_dataset_mut() refuses named graphs without change and is the graph's insert otherwise; histories mixing direct and view mutations refine C01's plain-set specification: run_coherent (indexed stores, single view mutations, index-full errors included) and run_views_coherent (EVERY lawful set implementation - indexed stores and std sets -, single and bulk mutations through graph_mut(g)). removal through as_dataset_mut() removes exactly the triple with the right flag (as_dataset_mut_remove_now) and every enumeration of union_graph() is that of its own triples (union_enum_now). The theorems are stated over flags REGENERATED from adapter.rs on every run (which underlying method DatasetGraph::insert/remove and GraphAsDataset::insert/remove call; whether UnionGraph forwards the atom enumerations); forwarding_flags_now decides that the current source has the good values and the *_now / bulk / run_views theorems are unconditional for it, so a regression of a flag breaks forwarding_flags_now and with it every obligation built on it, and is located by the differential. The tie of the model to the Rust code is differential (interleaved histories on every store type, 3-way: implementation / adapter model / plain-list specification, plus Rust-side oracles recomputed from the underlying store's quads() before each operation and from the SAME operation applied directly to a second store of the same type rebuilt from the same quads) and the extractor's fail-closed check that every adapter body has the transcribed shape.",
-    "level_note": "Trusted: tools/extractors/c11.py (text-shape check of each adapter body; comments, whitespace and trailing commas are normalised); `&T`/`&mut T` forwarding impls are the identity in the model (shape-checked for insert/remove, otherwise observed by the differential: every read is also made through graph_mut(g) / as_dataset_mut()); std collections modelled as lists (C02 laws) - for them the Lawful laws are near-definitional, the content is in the indexed stores (C01) and in the composition through the views; Vec<Gspo<T>> (remove drops only the first match) is modelled and compared but is not a Lawful implementation (no theorem applies beyond the one-step definitions); C01's model of the indexed stores (tied by C01's own differential). For vectors the oracle demands only what the property states (other quads keep their copies, same result as the direct operation on a twin store); for views a triple may show fewer times than there are quads behind it without being reported as a violation (model/implementation disagreement only). Enumerations through PartialUnionGraph/DatasetGraph/GraphAsDataset other than graph_names are images of the view by definition and only compared by the differential; quoted_triples through borrowed graph views is not exercised on the Rust side (HRTB limitation) except for UnionGraph and GraphAsDataset. remove_matching/retain_matching can not be called on a GraphAsDataset (its MutationError is not From<Error>): not covered. Nested views (a view of a view) and read errors of the wrapped store are not modelled. The three kernel-checked witnesses of the two repaired defects (12da6cd, f7b1ae1) are hypotheses-false for the current source and not counted as obligations; their minimal histories stay in corpus/C11/known.req and no known-finding predicate remains. No native_decide.",
-    "tables": ["index_tables", "adapter_flags"],
+    "level_text": "Proof (all states of every lawful store implementation, all graph names and matchers, unbounded histories): union_graph() shows exactly the image of the quads as a MULTISET (a triple in two graphs shows twice); partial_union_graph(m) and graph(g)/graph_mut(g) show exactly the triples of the quads whose graph name m matches / equals g (nothing for an absent name), also in triples(); pattern queries and contains through each view equal filtering / membership of the view; as_dataset() shows exactly the graph's triples in the default graph, answers pattern queries as filters, contains as membership (never for a named graph), has no graph names; insert/remove through graph_mut(g) have the state, result and flag of the dataset's insert/remove(s,p,o,g), leave every quad with another graph name and every other graph view untouched; the DEFAULT bulk methods called on graph_mut(g) (view_remove_all, view_remove_matching, view_retain_matching, view_insert_all, with counts for set stores) remove / keep / add exactly the quads of graph g they select and leave every other graph untouched (retain_matching through a view does NOT filter the whole store), on as_dataset_mut() (as_dataset_mut_remove_all, _insert_all, _insert_all_named) likewise with quads of named graphs ignored resp. refused; insert through as_dataset_mut() refuses named graphs without change and is the graph's insert otherwise; pattern queries through every view are stated directly as filters of the UNDERLYING store (view_query_store, as_dataset_query_store); on vectors (Vec<Spog>, Vec<[T;3]>, Vec<Gspo>: lawful BAGS, vec_types_lawful_bag) a mutation through graph_mut(g) has the state and result of the direct one, every other quad - in particular every quad of another graph - keeps ALL its copies, an insertion loses no copy and leaves one, a removal of a present quad loses at least one (view_mut_bag: multiset strength, both shipped remove behaviours); histories mixing direct and view mutations refine C01's plain-set specification: run_coherent (indexed stores, single view mutations, index-full errors included) and run_views_coherent (EVERY lawful set implementation - indexed stores and std sets -, single and bulk mutations through graph_mut(g)); its only hypothesis (no store error) is discharged for std sets (run_views_ok, run_views_coherent_set: unconditional over all histories) and shown necessary for the indexed stores by a kernel-checked witness (run_views_ok_necessary: full term index). What the model treats as given is now generated and decided on every run: ref_forwarding_identity (each of the 58 methods of the `&T` / `&mut T` forwarding impls of Dataset/Graph/MutableDataset/MutableGraph calls the same method of T with its own parameters: Gen/ViewGlue.lean) and default_bulk_transcribed (the twelve default bodies of the Mutable* traits that Adapter.Defaults transcribes are unchanged). removal through as_dataset_mut() removes exactly the triple with the right flag (as_dataset_mut_remove_now) and every enumeration of union_graph() is that of its own triples (union_enum_now). The theorems are stated over flags REGENERATED from adapter.rs on every run (which underlying method DatasetGraph::insert/remove and GraphAsDataset::insert/remove call; whether UnionGraph forwards the atom enumerations); forwarding_flags_now decides that the current source has the good values and the *_now / bulk / run_views theorems are unconditional for it, so a regression of a flag breaks forwarding_flags_now and with it every obligation built on it, and is located by the differential. The tie of the model to the Rust code is differential (interleaved histories on every store type, 3-way: implementation / adapter model / plain-list specification, plus Rust-side oracles recomputed from the underlying store's quads() before each operation and from the SAME operation applied directly to a second store of the same type rebuilt from the same quads) and the extractor's fail-closed check that every adapter body has the transcribed shape.",
+    "level_note": "Trusted: tools/extractors/c11.py (text-shape check of each adapter body; comments, whitespace and trailing commas are normalised); `&T`/`&mut T` forwarding impls are the identity in the model (now an obligation on a generated table, ref_forwarding_identity, and observed by the differential: every read is also made through graph_mut(g) / as_dataset_mut()); std collections modelled as lists (C02 laws) - for them the Lawful laws are near-definitional, the content is in the indexed stores (C01) and in the composition through the views; Vec<Gspo<T>> (remove drops only the first match) is not a Lawful collection: the read theorems (LawfulRead) and the bag theorems (view_mut_bag) apply to it, the SameSet ones do not; bulk mutations through views of vectors are compared by the differential only; C01's model of the indexed stores (tied by C01's own differential). For vectors the oracle demands only what the property states (other quads keep their copies, same result as the direct operation on a twin store); for views a triple may show fewer times than there are quads behind it without being reported as a violation (model/implementation disagreement only). Enumerations through PartialUnionGraph/DatasetGraph/GraphAsDataset other than graph_names are images of the view by definition and only compared by the differential; quoted_triples through borrowed graph views is not exercised on the Rust side (HRTB limitation) except for UnionGraph and GraphAsDataset. remove_matching/retain_matching can not be called on a GraphAsDataset (its MutationError is not From<Error>): not covered. Remaining differential only: the Lean transcription of each adapter body and of the default bulk loops (tied by the text-shape checks and the 3-way differential), the std collections' own insert/remove (vecImpl, vecFirstImpl, setImpl), enumerations through the wrapped store. Nested views (a view of a view), read errors of the wrapped store and index-full errors inside a bulk operation beyond view_insert_all's prefix statement are not modelled. The three kernel-checked witnesses of the two repaired defects (12da6cd, f7b1ae1) are hypotheses-false for the current source and not counted as obligations; their minimal histories stay in corpus/C11/known.req and no known-finding predicate remains. No native_decide.",
+    "tables": ["index_tables", "adapter_flags", "view_glue"],
     "lean_targets": ["SophiaProofs.Props.C11", "SophiaProofs.Audit.C11"],
     "theorems": THEOREMS,
     "native_ok": [],
